@@ -4,13 +4,14 @@ SPEC = dict(
     lean_modules=["Qx.Props.C13"],
     props_files=["lean/Qx/Props/C13.lean"],
     drivers=["qxdriver_c13"],
-    harnesses=[dict(name="task", asan=True, driver="qxdriver_c13")],
+    harnesses=[dict(name="task", asan="lib", driver="qxdriver_c13",
+                    env={"ASAN_OPTIONS": "detect_leaks=1:abort_on_error=0:exitcode=99"})],   # LeakSanitizer on: nothing else in this harness allocates,
     exhaustive=True,
     rule="op sequences over {then(ctx, re-entrant body incl. attach / destroy ctx / drop EVERY handle from inside the continuation), finish, destroy ctx, copy handle, drop handle} for void / copyable / "
-         "move-only results: exhaustive to depth 4 (quick) or 6 (thorough) over a 12-symbol alphabet plus seeded random sequences "
+         "move-only results, each value kind finished through both finish overloads (same type and converting): exhaustive to depth 4 (quick) or 6 (thorough) over a 12-symbol alphabet plus seeded random sequences "
          "over a 48-symbol alphabet; every line compares events (which continuation ran, with which context and value, what was "
          "released), isFinished, hasResult and handle count between the real QXmppPromise/QXmppTask and the Lean model; a "
-         "sequence is non-trivial when it yields >= 2 distinct observations; harness built with ASan+UBSan",
+         "sequence is non-trivial when it yields >= 2 distinct observations; harness AND library (QXmppTask.cpp) built with ASan+UBSan, LeakSanitizer on",
     trusted_base=[
         "Lean 4.33.0 kernel; axioms per theorem listed under coverage.theorems (subset of propext, Classical.choice, Quot.sound)",
         "hand-written model lean/Qx/Model/C13Task.lean, tied to src/base/QXmppTask.{h,cpp}, QXmppPromise.h by the correspondence run",
@@ -20,7 +21,8 @@ SPEC = dict(
         "continuations consume (move out) the value they are given; contexts already destroyed are passed as nullptr",
         "memory safety / leaks are a runtime matter: sanitizer-instrumented harness + instance counters, not a theorem (partial)",
     ],
-    level_text="Theorems for every history, kind and re-entrant body: at most once (cont_runs_at_most_once), never after context "
+    level_text="Theorems for every history, kind and re-entrant body: exactly once at history level (attached_before_finish_runs_exactly_once, "
+               "attached_after_finish_runs_exactly_once) on top of at most once (cont_runs_at_most_once), never after context "
                "death, delivered value = finished value, replaced continuation never runs, release when unreferenced (also when the continuation itself drops the last handle); model tied to "
                "the real templates by exhaustive+random correspondence under ASan.",
     level_note="Proved about the hand-written model; model-to-code tie is differential (exhaustive to a depth, sampled beyond). "
